@@ -25,7 +25,7 @@ ASSUMPTIONS = [
 COMPONENTS = {'real': ['yldprolog.engine Variable/Functor get_value and to_python, unify, findall, assert_fact', 'compiler + generated clauses for the program part'],
               'stub': ['consumer holding the open unifications and saved values'],
               'oracle': ['substitution-stack model (ypsim.terms) rendered through the documented to_python mapping']}
-REQUIRED_PROBES = ('fault_recursion_inside_get_value', 'fault_recursion_inside_to_python', 'save_ground_compound', 'save_outer_older_than_inner', 'read_after_pop', 'program_collect_idiom', 'program_findall', 'program_assert',
+REQUIRED_PROBES = ('term_built_and_kept', 'fault_recursion_inside_get_value', 'fault_recursion_inside_to_python', 'save_ground_compound', 'save_outer_older_than_inner', 'read_after_pop', 'program_collect_idiom', 'program_findall', 'program_assert',
                    'pop_close', 'pop_drop', 'pop_resume', 'pop_throw')
 
 
@@ -104,6 +104,9 @@ def gen(seed, tier):
             ops.append(['NEWVAR'])
         elif k < 0.09:
             ops.append(['FAULT', rng.choice(('get_value', 'to_python')), rng.choice(('list', 'nest'))])
+        elif k < 0.14:
+            # a compound term over the pool variables built now and read at later events (after bindings changed)
+            ops.append(['MKTERM', TM.J(TM.rnd_term(rng, nv, 2, p_leaf=0.2, p_var=0.7, lists=rng.random() < 0.4))])
         elif k < 0.3:
             ops.append(['POP', rng.choice(('close', 'drop', 'resume', 'throw'))])
         elif k < 0.55:
@@ -137,6 +140,8 @@ def show_op(op):
         return 'PUSH %s = %s' % (TM.show(TM.T(op[1])), TM.show(TM.T(op[2])))
     if op[0] == 'SAVE':
         return 'SAVE %s' % TM.show(TM.T(op[1]))
+    if op[0] == 'MKTERM':
+        return 'MKTERM %s (built now, read at every later event)' % TM.show(TM.T(op[1]))
     if op[0] == 'FAULT':
         return 'FAULT recursion limit strikes inside %s of a deep %s (handled by the caller)' % (op[1], op[2])
     return ' '.join(str(x) for x in op)
@@ -185,8 +190,27 @@ def execute(plan):
     s = {}
     stack = []
     saved = []          # (value, to_python at save time (model), description)
+    kept_terms = []     # (model term, engine term) built by MKTERM
 
     def check_now(tag):
+        # terms built earlier over the pool variables must reflect the bindings as they are now
+        for mt_, et_ in kept_terms:
+            ids_ = pool.ids()
+            got_ = TM.canon([TM.observe(et_, ids_)] + [TM.observe(v, ids_) for v in pool.vars])
+            want_ = TM.canon([TM.resolve(mt_, s)] + [TM.resolve(('v', i), s) for i in range(len(pool))])
+            if got_ != want_:
+                log.violation('term-built-earlier-misses-binding', {'at': tag, 'term': TM.show(mt_), 'engine': TM.show(got_[0]), 'model': TM.show(want_[0])})
+                return False
+            r_ = TM.resolve(mt_, s)
+            if TM.py_defined(r_):
+                try:
+                    py_ = to_python(et_)
+                except Exception as e:
+                    log.violation('to_python-raises', {'at': tag, 'term': TM.show(mt_), 'exception': type(e).__name__})
+                    return False
+                if pyj(py_) != pyj(TM.to_py(r_)):
+                    log.violation('term-built-earlier-misses-binding', {'at': tag, 'term': TM.show(mt_), 'to_python': pyj(py_), 'model': pyj(TM.to_py(r_))})
+                    return False
         # get_value at every depth (through the observer, which dereferences node by node) vs. the model;
         # this also covers values for which to_python is not defined (partial lists)
         got_all, want_all = pool.observe_all(), pool.model_all(s)
@@ -261,6 +285,12 @@ def execute(plan):
                     break
                 if saved:
                     log.count('read_after_pop')
+            elif kind == 'MKTERM':
+                t = pool.norm(TM.T(op[1]))
+                if len(kept_terms) < 4 and t[0] == 'f':
+                    kept_terms.append((t, pool.build(t)))
+                    log.count('term_built_and_kept')
+                    log.ev('mkterm', TM.show(t))
             elif kind == 'FAULT':
                 # the interpreter raises RecursionError in the middle of a dereference; the caller handles it.
                 # Nothing about later dereferences may change because of that.
@@ -400,7 +430,7 @@ def simplify(plan):
         c = dict(plan)
         c['nv'] = plan['nv'] - 1
         yield c
-    yield from simplify_ops_terms(plan, {'PUSH': (1, 2), 'SAVE': (1,)})
+    yield from simplify_ops_terms(plan, {'PUSH': (1, 2), 'SAVE': (1,), 'MKTERM': (1,)})
 
 
 def witness(plan, viol):
